@@ -431,3 +431,54 @@ pub fn run_detour(seed: u64, tier: &str, out: &mut Out) {
         out.emit(&case, &format!(" ORACLE {verdict}"));
     }
 }
+
+// ---- parsing of encoded cases (used to re-run edited cases: shrinking of failing histories)
+
+pub fn parse_mop(toks: &[&str]) -> Option<MOp> {
+    use crate::bar::{dec, parse_bop, parse_fin_pub};
+    Some(match toks {
+        ["adv", d] => MOp::Adv(d.parse().ok()?),
+        ["add", loc, arg, len, tpl, prefix, fin @ ..] => MOp::Add { loc: loc.parse().ok()?, arg: arg.parse().ok()?, len: if *len == "none" { None } else { Some(len.parse().ok()?) },
+            tpl: tpl.parse().ok()?, prefix: dec(prefix)?, fin: parse_fin_pub(fin)? },
+        ["remove", k] => MOp::Remove(k.parse().ok()?), ["mpprintln", t] => MOp::MpPrintln(dec(t)?), ["mpclear"] => MOp::MpClear,
+        ["mpsuspend", rest @ ..] => MOp::MpSuspend(rest.iter().map(|l| dec(l)).collect::<Option<Vec<_>>>()?),
+        ["align", b] => MOp::Align(*b == "bottom"), ["retarget"] => MOp::Retarget,
+        ["bar", k, rest @ ..] => MOp::Bar(k.parse().ok()?, parse_bop(rest)?),
+        _ => return None })
+}
+/// `MULTI|ROWS FX=.. w h hz T0 ; op ; op`
+pub fn parse_case(line: &str, small: bool) -> Option<Case> {
+    let mut parts = line.split(" ; ");
+    let hdr: Vec<&str> = parts.next()?.split_whitespace().collect();
+    if hdr.len() != 6 { return None; }
+    let mut ops = Vec::new();
+    for p in parts { let t: Vec<&str> = p.split_whitespace().collect(); ops.push(parse_mop(&t)?); }
+    Some(Case { w: hdr[2].parse().ok()?, h: hdr[3].parse().ok()?, hz: hdr[4].parse().ok()?, ops, small })
+}
+
+/// re-runs the cases of a file (one encoded case per line; env VERIF_CASES_IN) as the stream `VERIF_STREAM` would:
+/// a case that cannot be parsed, or on which the harness itself trips (an edited history may refer to bars that
+/// no longer exist), yields the observation `unrunnable`
+pub fn run_given(out: &mut Out) {
+    let path = std::env::var("VERIF_CASES_IN").expect("VERIF_CASES_IN");
+    let stream = std::env::var("VERIF_STREAM").unwrap_or_default();
+    for line in std::fs::read_to_string(path).unwrap().lines() {
+        let r = std::panic::catch_unwind(|| {
+            if line.starts_with("BAR ") {
+                let c = crate::bar::parse_case(line)?;
+                let (case, o) = crate::bar::run_given_case(&c, &stream);
+                Some((case, o))
+            } else {
+                let c = parse_case(line, stream == "C19M")?;
+                let (obs, verdict) = run_case(&c);
+                if line.starts_with("ROWS ") {
+                    let (_, snaps) = obs.split_once("panicked=false").unwrap_or(("", ""));
+                    let frames: Vec<String> = snaps.split(" ; ").map(|s| s.trim_start().split_once(' ').map_or(String::new(), |(_, r)| r.to_string())).collect();
+                    let frames = if snaps.trim().is_empty() { vec![] } else { frames };
+                    Some((line.to_string(), format!("panicked=false {} ORACLE {verdict}", frames.join(" ; "))))
+                } else { Some((line.to_string(), format!("{obs} ORACLE {verdict}"))) }
+            }
+        });
+        match r { Ok(Some((c, o))) => out.emit(&c, &o), _ => out.emit(line, "unrunnable ORACLE skip") }
+    }
+}
